@@ -171,3 +171,126 @@ def param_default(func: ast.FunctionDef, name: str) -> Optional[ast.expr]:
         if p.arg == name:
             return dv
     return None
+
+
+# ----------------------------------------------------------------------------------------------------------------
+# name-agnostic structural matching:  pattern source with metavariables
+#   $x   matches any Name (bound consistently across one Bindings object)
+#   $$x  matches any expression (bound consistently, compared structurally)
+# comparisons are put in a canonical orientation on both sides before matching, so `a > b` == `b < a`
+# ----------------------------------------------------------------------------------------------------------------
+_FLIPC = {ast.Lt: ast.Gt, ast.Gt: ast.Lt, ast.LtE: ast.GtE, ast.GtE: ast.LtE}
+
+
+class _Canon(ast.NodeTransformer):
+    def visit_Compare(self, n):
+        self.generic_visit(n)
+        if len(n.ops) == 1:
+            l, r = n.left, n.comparators[0]
+            op = type(n.ops[0])
+            if op in _FLIPC or op in (ast.Eq, ast.NotEq):
+                if ast.dump(l) > ast.dump(r):
+                    return ast.Compare(left=r, ops=[(_FLIPC.get(op, op))()], comparators=[l])
+        return n
+
+
+def canon(node: ast.AST) -> ast.AST:
+    return node     # orientation of comparisons is handled inside the matcher (both orientations are tried)
+
+
+def _pat(src: str) -> ast.AST:
+    s = src.replace("$$", "__mvx_").replace("$", "__mv_")
+    tree = ast.parse(s.strip())
+    node = tree.body[0]
+    if isinstance(node, ast.Expr):
+        node = node.value
+    return canon(node)
+
+
+class Bindings(dict):
+    pass
+
+
+def _m(p, n, b: Bindings) -> bool:
+    if isinstance(p, ast.Name) and p.id.startswith("__mvx_"):
+        key = p.id
+        if key in b:
+            return ast.dump(b[key]) == ast.dump(n) if isinstance(n, ast.AST) else False
+        if not isinstance(n, ast.AST):
+            return False
+        b[key] = n
+        return True
+    if isinstance(p, ast.Name) and p.id.startswith("__mv_"):
+        if not isinstance(n, ast.Name):
+            return False
+        key = p.id
+        if key in b:
+            return b[key] == n.id
+        b[key] = n.id
+        return True
+    if isinstance(p, ast.arg) and isinstance(n, ast.arg):
+        return _m(ast.Name(id=p.arg), ast.Name(id=n.arg), b)
+    if type(p) is not type(n):
+        return False
+    if isinstance(p, ast.Compare) and len(p.ops) == 1 and len(n.ops) == 1 and (type(n.ops[0]) in _FLIPC or isinstance(n.ops[0], (ast.Eq, ast.NotEq))):
+        for cand in (n, ast.Compare(left=n.comparators[0], ops=[_FLIPC.get(type(n.ops[0]), type(n.ops[0]))()], comparators=[n.left])):
+            b2 = Bindings(b)
+            if type(p.ops[0]) is type(cand.ops[0]) and _m(p.left, cand.left, b2) and _m(p.comparators[0], cand.comparators[0], b2):
+                b.update(b2)
+                return True
+        return False
+    if isinstance(p, ast.AST):
+        for f in p._fields:
+            if f in ("ctx", "lineno", "col_offset", "end_lineno", "end_col_offset", "type_comment", "kind"):
+                continue
+            if not _m(getattr(p, f, None), getattr(n, f, None), b):
+                return False
+        return True
+    if isinstance(p, list):
+        return len(p) == len(n) and all(_m(x, y, b) for x, y in zip(p, n))
+    return p == n
+
+
+def match(pattern: str, node: ast.AST, b: Optional[Bindings] = None) -> Optional[Bindings]:
+    """match one statement / expression pattern against a node; returns the (extended) bindings or None"""
+    b2 = Bindings(b or {})
+    p = _pat(pattern)
+    n = canon(node)
+    if isinstance(n, ast.Expr) and not isinstance(p, ast.Expr):
+        n = n.value
+    if isinstance(n, ast.AnnAssign) and isinstance(p, ast.Assign) and n.value is not None:
+        n = ast.Assign(targets=[n.target], value=n.value)
+    return b2 if _m(p, n, b2) else None
+
+
+def find_match(pattern: str, root: ast.AST, b: Optional[Bindings] = None, nested: bool = True):
+    """all (node, bindings) under root matching the pattern"""
+    out = []
+    it = ast.walk(root) if nested else walk_no_nested(root)
+    p = _pat(pattern)
+    want_stmt = isinstance(p, ast.stmt)
+    for n in it:
+        if want_stmt != isinstance(n, ast.stmt) and not (isinstance(n, ast.AnnAssign) and isinstance(p, ast.Assign)):
+            continue
+        r = match(pattern, n, b)
+        if r is not None:
+            out.append((n, r))
+    return out
+
+
+def match_seq(patterns: List[str], stmts: List[ast.stmt], b: Optional[Bindings] = None) -> Optional[Bindings]:
+    """the patterns occur in this order (not necessarily adjacent) among stmts, with consistent bindings"""
+    cur = Bindings(b or {})
+    i = 0
+    for pat in patterns:
+        ok = False
+        while i < len(stmts):
+            r = match(pat, stmts[i], cur)
+            i += 1
+            if r is not None:
+                cur = r
+                ok = True
+                break
+        if not ok:
+            return None
+    return cur
